@@ -18,6 +18,11 @@ class PathAbort(Exception):
     """internal: stop executing this path (infeasible)"""
 
 
+class ContractStop(Exception):
+    """raised by a contract's summary: the target is verified up to this call site only (the rest is
+    stated as bounded-only in the contract's docstring / evidence)"""
+
+
 class PathEnd(Exception):
     """internal: a path that ends by design (end of an arbitrary loop iteration): its obligations count"""
 
@@ -63,6 +68,10 @@ class Ctx:
         self._feas_cache = {}
         self.infeasible = False
         self.in_quant = 0
+        self.fact_log = None
+        self.lift_vars = []
+        self.guards = []  # hypotheses under which obligations are currently emitted (symbolic comprehension bodies)
+        self.no_branch = 0
 
     # ---------------------------------------------------------------- symbols
     def sym(self, name, sort="real"):
@@ -72,12 +81,33 @@ class Ctx:
         self.symbols[name] = c
         return c
 
+    FRESH_KEYS = {"empty", "arange", "argred", "sort", "cumsum", "isin", "split", "fit", "masksel", "havoc", "fancystore", "hv"}
+    LIFTED_KEYS = {"isin", "masksel"}
+
     def fresh(self, prefix, sort="real"):
+        if self.lift_vars:
+            return self.new_const(f"{prefix}!{self.ordinal('liftfresh')}", sort)
         return T.fresh(prefix, sort)
 
     def ordinal(self, key):
+        if self.lift_vars and key in self.FRESH_KEYS and key not in self.LIFTED_KEYS:
+            raise Unsupported(f"per-element fresh symbol ({key}) inside a comprehension over a symbolic-length sequence")
         self.counters[key] = self.counters.get(key, 0) + 1
         return self.counters[key]
+
+    # symbols created while a comprehension body is evaluated at the symbolic position kc are *functions of kc*
+    def new_const(self, name, sort):
+        if not self.lift_vars:
+            return {"real": z3.Real, "int": z3.Int, "bool": z3.Bool}[sort](name)
+        f = T.uf(name + "@", *(["int"] * len(self.lift_vars) + [sort]))
+        return f(*self.lift_vars)
+
+    def new_fn(self, name, *sorts):
+        if not self.lift_vars:
+            return T.uf(name, *sorts)
+        f = T.uf(name + "@", *(["int"] * len(self.lift_vars) + list(sorts)))
+        lv = list(self.lift_vars)
+        return lambda *args: f(*lv, *args)
 
     # ---------------------------------------------------------------- assumptions
     def assume(self, f, note=""):
@@ -103,6 +133,8 @@ class Ctx:
             return
         self._fact_ids.add(i)
         self.facts.append(f)
+        if self.fact_log is not None:
+            self.fact_log.append(f)
         if src:
             self.trusted.add(src)
 
@@ -147,6 +179,13 @@ class Ctx:
         if isinstance(cond, bool):
             return cond
         cond = T.zb(cond)
+        if self.no_branch:
+            # only branches that the path condition already decides are allowed here
+            if self.valid(z3.Implies(z3.And(*self.guards), cond) if self.guards else cond):
+                return True
+            if self.valid(z3.Implies(z3.And(*self.guards), z3.Not(cond)) if self.guards else z3.Not(cond)):
+                return False
+            raise Unsupported("data-dependent branch inside a comprehension over a symbolic-length sequence")
         if self.dpos < len(self.decisions):
             d = self.decisions[self.dpos]
             self.dpos += 1
@@ -193,6 +232,8 @@ class Ctx:
             self.obligations.append(ob)
             return ob
         g = z3.BoolVal(False) if goal is False else T.zb(goal)
+        if self.guards:
+            g = z3.Implies(z3.And(*self.guards), g)
         ob = Obligation(name, kind, self.hyps(), g, list(self.decisions[: self.dpos]), fn, note)
         self.obligations.append(ob)
         return ob
@@ -209,7 +250,10 @@ class Ctx:
         """obligation that is *assumed* afterwards (like assert): later code may rely on it"""
         ob = self.oblige(name, goal, kind, note)
         if goal is not True and goal is not False:
-            self.pc.append(T.zb(goal))
+            g = T.zb(goal)
+            if self.guards:
+                g = z3.Implies(z3.And(*self.guards), g)
+            self.pc.append(g)
             self.pc_notes.append("after " + name)
         return ob
 
